@@ -391,6 +391,13 @@ const KERNELS: &[Kernel] = &[
         mirror: "FmAst",
     },
     Kernel {
+        file: "src/formatters/expression.rs",
+        name: "brackets_string",
+        funcs: &[("is_brackets_string", "Fixpoint is_brackets_string (expression : Expression) {struct expression} : bool :=")],
+        module: "BracketsString",
+        mirror: "FmAstBrk",
+    },
+    Kernel {
         file: "src/formatters/block.rs",
         name: "semicolon_rule",
         funcs: &[
